@@ -25,14 +25,17 @@ import (
 )
 
 type Case struct {
-	ID      uint64  `json:"id"`
-	Mode    string  `json:"mode"` // ctl | free
-	Cap     int     `json:"cap"`
-	Keys    int     `json:"keys"`
-	Threads int     `json:"threads,omitempty"` // ctl
-	Idx     uint64  `json:"idx"`               // PRNG stream of the case
-	Acts    []Act   `json:"acts,omitempty"`    // ctl: the actions performed (generated on the fly, replayed as given)
-	Progs   [][]POp `json:"progs,omitempty"`   // free: one program per goroutine
+	ID       uint64  `json:"id"`
+	Mode     string  `json:"mode"` // ctl | free
+	Cap      int     `json:"cap"`
+	Keys     int     `json:"keys"`
+	Threads  int     `json:"threads,omitempty"`  // ctl
+	Idx      uint64  `json:"idx"`                // PRNG stream of the case
+	Acts     []Act   `json:"acts,omitempty"`     // ctl: the actions performed (generated on the fly, replayed as given)
+	Depth    int     `json:"depth,omitempty"`    // ctlx (generator only): enumerate all scripts of this many choices ...
+	Root     []int   `json:"root,omitempty"`     // ... that start with these choices
+	NoRemove bool    `json:"noremove,omitempty"` // ctlx: Remove is not among the choices
+	Progs    [][]POp `json:"progs,omitempty"`    // free: one program per goroutine
 }
 
 // result is what a child reports for one case
@@ -103,7 +106,7 @@ func runOne(cs Case, seed uint64) *result {
 		}()
 		switch cs.Mode {
 		case "ctl":
-			runCtl(&cs, prng.New(seed, "C09ctl", cs.Idx), res)
+			runCtl(&cs, prng.New(seed, "C09ctl", cs.Idx), nil, res)
 		case "free":
 			runFree(&cs, res)
 		default:
@@ -163,6 +166,14 @@ func main() {
 		}
 		w := bufio.NewWriterSize(out, 1<<20)
 		for _, cs := range hx.ReadCases[Case](fl.From) {
+			if cs.Mode == "ctlx" {
+				enumCtl(cs, fl.Seed, func(r *result) {
+					b, _ := json.Marshal(r)
+					w.Write(b)
+					w.WriteByte('\n')
+				})
+				continue
+			}
 			b, _ := json.Marshal(runOne(cs, fl.Seed))
 			w.Write(b)
 			w.WriteByte('\n')
@@ -190,11 +201,26 @@ func main() {
 		s.Close("replayed cases", false)
 		return
 	}
-	nCtl, nFree, nSmall := 800, 160, 60
-	if fl.Tier == "thorough" {
-		nCtl, nFree, nSmall = 12000, 4000, 1000
+	thorough := fl.Tier == "thorough"
+	nCtl, nFree, nSmall, depth2, depth3 := 1000, 200, 60, 4, 0
+	if thorough {
+		nCtl, nFree, nSmall, depth2, depth3 = 12000, 4000, 1000, 5, 4
 	}
 	var cases []Case
+	// exhaustive part: every driver script of the given depth for 2 goroutines (thorough: also 3), 2 keys,
+	// capacity 1 (evictions) and 2 (none; capacity 3 cannot differ from 2 with two keys); one enumeration
+	// root per first choice.  In the quick tier Remove is among the choices for capacity 1 only.
+	for cap := 1; cap <= 2; cap++ {
+		noRemove := !thorough && cap == 2
+		for first := 0; first < 8; first++ {
+			cases = append(cases, Case{Mode: "ctlx", Cap: cap, Keys: 2, Threads: 2, Depth: depth2, Root: []int{first}, NoRemove: noRemove})
+		}
+		if depth3 > 0 && cap == 1 {
+			for first := 0; first < 12; first++ {
+				cases = append(cases, Case{Mode: "ctlx", Cap: cap, Keys: 2, Threads: 3, Depth: depth3, Root: []int{first}})
+			}
+		}
+	}
 	for i := 0; i < nCtl; i++ {
 		cases = append(cases, genCtl(fl.Seed, uint64(i)))
 	}
@@ -238,6 +264,7 @@ func main() {
 	}
 	wg.Wait()
 	results := map[uint64]*result{}
+	var enumerated []*result
 	for p := 0; p < nproc; p++ {
 		dir := filepath.Join(fl.Out, fmt.Sprintf("child%02d", p))
 		if errs[p] != nil {
@@ -246,22 +273,38 @@ func main() {
 		if _, err := os.Stat(filepath.Join(dir, "results.jsonl")); err == nil {
 			for _, r := range hx.ReadCases[result](filepath.Join(dir, "results.jsonl")) {
 				r := r
-				results[r.Case.ID] = &r
+				if r.Case.ID > uint64(len(cases)) || cases[r.Case.ID-1].Mode == "ctlx" {
+					enumerated = append(enumerated, &r)
+				} else {
+					results[r.Case.ID] = &r
+				}
 			}
 		}
 		os.RemoveAll(dir)
 	}
 	missing := 0
+	nextID := uint64(len(cases))
+	for _, r := range enumerated { // enumerated scripts get fresh ids (their term carries the root's id)
+		nextID++
+		r.Term = strings.Replace(r.Term, fmt.Sprintf(" %d%%N ", r.Case.ID), fmt.Sprintf(" %d%%N ", nextID), 1)
+		r.Case.ID = nextID
+		record(r)
+	}
 	for i := range cases {
+		if cases[i].Mode == "ctlx" {
+			continue
+		}
 		if r, ok := results[cases[i].ID]; ok {
 			record(r)
 		} else {
 			missing++
 		}
 	}
-	s.Close(fmt.Sprintf("controlled: %d PRNG-chosen scripts (2-4 goroutines, capacities 1..3, 2..4 keys, 10-26 driver actions + drain + final Clear) validated against the LTS label by label with quiescence comparison; "+
+	s.Extra["enumerated_scripts"] = len(enumerated)
+	s.Close(fmt.Sprintf("controlled, exhaustive: every driver script of %d choices for 2 goroutines and of %d choices for 3 goroutines (2 keys, capacities 1 and 2; choices: start GetOrCreate k / Remove / Clear on an idle thread, release a blocked creation with success / failure), each driven to the end; "+
+		"controlled, random: %d PRNG-chosen scripts (2-4 goroutines, capacities 1..3, 2..4 keys, 10-26 driver actions + drain + final Clear) validated against the LTS label by label with quiescence comparison; "+
 		"free-running: %d runs of 3-8 goroutines x 4-50 calls and %d runs of 2-4 goroutines x 3-8 calls, random yields inside create, direct checks and a linearisation witness verified against the reference LRU. "+
-		"distinct = by content hash; non-trivial = controlled run with a wake-up or a failed creation / free run with a successful creation", nCtl, nFree, nSmall), false)
+		"distinct = by content hash; non-trivial = controlled run with a wake-up or a failed creation / free run with a successful creation", depth2, depth3, nCtl, nFree, nSmall), false)
 	if missing > 0 {
 		fmt.Fprintf(os.Stderr, "%d cases produced no result (child process died)\n", missing)
 		os.Exit(3)
